@@ -437,32 +437,63 @@ class D(P):
         self.eat("]")
         return self.side[name]
 
+    def xparser(self):
+        inv = {v: k for k, v in self.side.items()}
+        x = X(self.t, env=getattr(self, "dlocals", {}), arrays={inv["Lhs"]: "EL", inv["Rhs"]: "ER"}, index=self.index)
+        x.i = self.i
+        return x
+
+    def operand(self):
+        x = self.xparser()
+        e = x.xexpr()
+        self.i = x.i
+        return e
+
+    def local_decls(self):
+        """const T l(round_to(lhs[i])), r(round_to(rhs[i]));  at the start of the loop body"""
+        while True:
+            x = self.xparser()
+            if not x.maybe_decl():
+                return
+            self.dlocals = x.env
+            self.i = x.i
+
     def cond(self):
         if self.accept("!"):
             return "CNot (%s)" % self.cond()
-        if self.accept("("):
-            c = self.cond_or()
-            self.eat(")")
-            return c
+        if self.peek() == "(":
+            # parenthesised condition or parenthesised operand: try the condition first
+            save = self.i
+            try:
+                self.eat("(")
+                c = self.cond_or()
+                self.eat(")")
+                if self.peek() not in ECMP:
+                    return c
+            except Unparsed:
+                pass
+            self.i = save
         if self.peek() in ("almost_equal", "vita::almost_equal"):
             self.eat()
             self.eat("(")
-            x = self.elem()
+            x = self.operand()
             self.eat(",")
-            y = self.elem()
+            y = self.operand()
             self.eat(")")
-            if (x, y) != ("Lhs", "Rhs"):
-                raise Unparsed("almost_equal argument order")
-            return "CAlmost"
-        x = self.elem()
+            if (x, y) == ("EL", "ER"):
+                return "CAlmost"
+            return "COn (%s) (%s) CAlmost" % (x, y)
+        x = self.operand()
         op = self.eat()
         if op not in ECMP:
             raise Unparsed("component test %r" % op)
-        y = self.elem()
-        if x == y:
-            raise Unparsed("component compared with itself")
+        y = self.operand()
         c = ECMP[op]
-        return c if x == "Lhs" else FLIP[c]
+        if (x, y) == ("EL", "ER"):
+            return c
+        if (x, y) == ("ER", "EL"):
+            return FLIP[c]
+        return "COn (%s) (%s) %s" % (x, y, c)
 
     def cond_or(self):
         c = self.cond()
@@ -495,6 +526,8 @@ class D(P):
 
     def dstmt_seq(self, closing):
         """sequence of if-statements up to `closing` (None: exactly one statement)"""
+        if closing is not None:
+            self.local_decls()
         if closing is not None and self.peek() == closing:
             return "DNil"
         if self.peek() != "if":
@@ -594,9 +627,13 @@ FIT_SIG = r"bool\s+operator\s*%s\s*(?=\()"
 HEADER = """(* GENERATED by translate/fitness_ops.py from src/kernel/fitness.tcc and
    src/kernel/model_measurements.h -- do not edit.  How the source defines each
    relational operator of basic_fitness_t, dominating() and
-   model_measurements::operator>= (types and meaning: Fitness/FitnessSrc.v). *)
-From Coq Require Import List Bool.
+   model_measurements::operator>=, and which loop applies which per-element
+   expression in the arithmetic, the lifts, distance, combine and the scalar
+   round_to of utility.h (types and meaning: Fitness/FitnessSrc.v). *)
+From Coq Require Import ZArith List Bool.
 From VV Require Import Fitness.FitnessSrc.
+Import ListNotations.
+Local Open Scope Z_scope.
 
 """
 
@@ -633,6 +670,13 @@ def generate(snap):
         out["mm_ge_def"] = parse_relational(body, params, mode="mm")
     except Unparsed as e:
         problems.append("model_measurements::operator>=: %s" % e)
+    try:
+        with open(os.path.join(snap, "utility", "utility.h")) as f:
+            util = strip_comments(f.read())
+        arith, aprob = generate_arith(tcc, util)
+        problems += aprob
+    except OSError as e:
+        problems.append("cannot read utility.h: %s" % e)
     if problems:
         return None, problems
     t = HEADER
@@ -649,7 +693,626 @@ Definition op_defs (o : relop) : rexpr :=
     init, bound, body = out["dom"]
     t += "Definition dominating_def : dom_def :=\n  {| d_init := %s;\n     d_bound := %s;\n     d_body := %s |}.\n\n" % (init, bound, body)
     t += "Definition mm_ge_def : rexpr := %s.\n" % out["mm_ge_def"]
+    t += "\n(* the arithmetic: which loop applies which per-element expression *)\n"
+    for name, ty in ARITH_TYPES.items():
+        t += "Definition %s : %s := %s.\n" % (name, ty, arith[name])
     return t, []
+
+
+
+
+# ===================================================================
+# Round 4: the arithmetic.  Per-element expressions of the loops/transforms.
+import struct
+
+
+def f64_bits(x):
+    return struct.unpack(">Q", struct.pack(">d", float(x)))[0]
+
+
+CALLS = {"std::abs": "FAbs", "std::fabs": "FAbs", "fabs": "FAbs", "abs": "FAbs", "std::sqrt": "FSqrt",
+         "sqrt": "FSqrt", "std::round": "FRound", "round": "FRound", "round_to": "FRoundTo",
+         "vita::round_to": "FRoundTo"}
+BINOPS = {"+": "BAdd", "-": "BSub", "*": "BMul", "/": "BDiv"}
+TYPEWORDS = ("const", "constexpr", "static", "auto", "T", "double", "std::size_t", "size_t", "unsigned", "int")
+
+
+class X(P):
+    """element expressions.  env: name -> eexpr text; arrays: name -> side text (name[index]);
+    self_elem: text for operator[](i) / (*this)[i] / vect_[i]"""
+
+    def __init__(self, toks, env=None, arrays=None, index=None, self_elem=None):
+        self.t = toks
+        self.i = 0
+        self.env = dict(env or {})
+        self.arrays = dict(arrays or {})
+        self.index = index
+        self.self_elem = self_elem
+
+    def subscript(self):
+        self.eat("[")
+        if self.index is None or self.eat() != self.index:
+            raise Unparsed("subscript")
+        self.eat("]")
+
+    def xprimary(self):
+        tk = self.peek()
+        if tk == "(":
+            if self.peek(1) == "*" and self.peek(2) == "this":
+                self.eat(); self.eat(); self.eat(); self.eat(")")
+                self.subscript()
+                if self.self_elem is None:
+                    raise Unparsed("(*this)[i] outside a member")
+                return self.self_elem
+            self.eat()
+            e = self.xexpr()
+            self.eat(")")
+            return e
+        if tk == "-":
+            self.eat()
+            return "ENeg (%s)" % self.xunary()
+        if tk is not None and re.fullmatch(r"\d+\.\d*|\d+", tk):
+            self.eat()
+            if self.peek() in ("f", "F", "L", "l"):
+                raise Unparsed("literal suffix")
+            return "EConst %d" % f64_bits(float(tk))
+        if tk == "static_cast":
+            self.eat()
+            self.skip_template_args()
+            self.eat("(")
+            e = self.xexpr()
+            self.eat(")")
+            return e
+        if tk == "std::move":
+            self.eat()
+            self.eat("(")
+            e = self.xexpr()
+            self.eat(")")
+            return e
+        if tk == "operator" and self.peek(1) == "[":
+            self.eat(); self.eat("["); self.eat("]"); self.eat("(")
+            if self.index is None or self.eat() != self.index:
+                raise Unparsed("operator[] argument")
+            self.eat(")")
+            if self.self_elem is None:
+                raise Unparsed("operator[] outside a member")
+            return self.self_elem
+        if tk in CALLS and self.peek(1) == "(":
+            self.eat()
+            self.eat("(")
+            e = self.xexpr()
+            self.eat(")")
+            return "ECall %s (%s)" % (CALLS[tk], e)
+        if tk in self.arrays:
+            self.eat()
+            self.subscript()
+            return self.arrays[tk]
+        if tk in self.env:
+            self.eat()
+            return self.env[tk]
+        raise Unparsed("expression token %r" % tk)
+
+    def xunary(self):
+        return self.xprimary()
+
+    def xterm(self):
+        e = self.xunary()
+        while self.peek() in ("*", "/"):
+            op = self.eat()
+            e = "EBin %s (%s) (%s)" % (BINOPS[op], e, self.xunary())
+        return e
+
+    def xexpr(self):
+        e = self.xterm()
+        while self.peek() in ("+", "-"):
+            op = self.eat()
+            e = "EBin %s (%s) (%s)" % (BINOPS[op], e, self.xterm())
+        return e
+
+    # ---- declarations of constants:  constexpr T a(E), b(E);   const T a = E;
+    def maybe_decl(self):
+        """parse one declaration statement binding names to expressions; False if not a declaration"""
+        if self.peek() not in TYPEWORDS or self.peek() == "auto" and self.peek(1) == "&":
+            return False
+        save = self.i
+        while self.peek() in TYPEWORDS:
+            self.eat()
+        while True:
+            name = self.eat()
+            if not re.fullmatch(r"[A-Za-z_]\w*", name or ""):
+                self.i = save
+                return False
+            if self.accept("("):
+                e = self.xexpr()
+                self.eat(")")
+            elif self.accept("="):
+                e = self.xexpr()
+            else:
+                self.i = save
+                return False
+            self.env[name] = e
+            if self.accept(","):
+                continue
+            self.eat(";")
+            return True
+
+    def assignment(self, target_is):
+        """<target> OP= E;  |  <target> = E;   -> new expression for the target.
+        target_is(parser) consumes the target and returns its current expression"""
+        cur = target_is()
+        op = self.eat()
+        if op == "=":
+            e = self.xexpr()
+        elif op in BINOPS and self.accept("="):
+            e = "EBin %s (%s) (%s)" % (BINOPS[op], cur, self.xexpr())
+        else:
+            raise Unparsed("assignment operator %r" % op)
+        self.eat(";")
+        return e
+
+    def for_header_index(self):
+        """for (std::size_t i(0); i < n; ++i)   -> index name, bound name"""
+        self.eat("for")
+        self.eat("(")
+        while self.peek() in TYPEWORDS:
+            self.eat()
+        idx = self.eat()
+        if self.accept("("):
+            self.eat("0"); self.eat(")")
+        else:
+            self.eat("="); self.eat("0")
+        self.eat(";")
+        if self.eat() != idx:
+            raise Unparsed("loop condition")
+        self.eat("<")
+        bound = self.eat()
+        self.eat(";")
+        inc = [self.eat(), self.eat()]
+        if sorted(inc) != sorted(["++", idx]):
+            raise Unparsed("loop increment")
+        self.eat(")")
+        return idx, bound
+
+    def done(self):
+        if self.peek() is not None:
+            raise Unparsed("trailing tokens: %r" % self.peek())
+
+
+def find_function2(src, sig_re, param_filter=None):
+    """like find_function, choosing the first definition whose parameter text passes the filter;
+    returns (parameter names, parameter text, body)"""
+    for m in re.finditer(sig_re + r"\s*\(([^)]*)\)\s*(?:const)?\s*\{", src):
+        if param_filter and not param_filter(m.group(1)):
+            continue
+        params = []
+        for p in m.group(1).split(","):
+            w = re.findall(r"[A-Za-z_]\w*", p)
+            if not w:
+                raise Unparsed("parameter list")
+            params.append(w[-1])
+        i = m.end()
+        depth = 1
+        while i < len(src) and depth:
+            depth += {"{": 1, "}": -1}.get(src[i], 0)
+            i += 1
+        if depth:
+            raise Unparsed("unbalanced body")
+        return params, m.group(1), src[m.end():i - 1]
+    raise Unparsed("definition not found: " + sig_re)
+
+
+def parse_compound(body, params):
+    """member operator OP=(const basic_fitness_t &f):
+       const auto n(size()); for (i < n) operator[](i) OP= f[i]; return *this;   -> eexpr"""
+    x = X(tokenize(body), arrays={params[0]: "ER", "vect_": "EL"}, self_elem="EL")
+    while x.peek() in TYPEWORDS:
+        x.eat()
+    nname = x.eat()
+    paren = x.accept("(")
+    if not paren:
+        x.eat("=")
+    if x.peek() == "this":
+        x.eat(); x.eat("->")
+    if x.eat() != "size":
+        raise Unparsed("loop bound is not size()")
+    x.eat("("); x.eat(")")
+    if paren:
+        x.eat(")")
+    x.eat(";")
+    idx, bound = x.for_header_index()
+    if bound != nname:
+        raise Unparsed("loop bound")
+    x.index = idx
+    braces = x.accept("{")
+    e = x.assignment(x.xprimary)
+    if braces:
+        x.eat("}")
+    x.eat("return"); x.eat("*"); x.eat("this"); x.eat(";")
+    x.done()
+    return e
+
+
+def parse_binary_free(body, params):
+    """operator OP(lhs, rhs):  return lhs OP= rhs;   -> the compound operator it delegates to"""
+    t = tokenize(body)
+    if len(t) == 6 and t[0] == "return" and t[1] == params[0] and t[2] in BINOPS and t[3] == "=" \
+            and t[4] == params[1] and t[5] == ";":
+        return t[2]
+    raise Unparsed("free operator is not `return lhs OP= rhs;`")
+
+
+def parse_range_for(body, params, scalar=None, delegates=None):
+    """[constants]  for (auto &f_i : f) f_i OP= E; | f_i = E;   return f;
+       or  return std::move(f) OP (E);  with OP a scalar operator already described (delegates: op -> eexpr)"""
+    env = {}
+    if scalar:
+        env[scalar] = "EScalar"
+    x = X(tokenize(body), env=env)
+    while x.maybe_decl():
+        pass
+    if x.accept("return"):
+        # delegation  f OP E
+        if x.accept("std::move"):
+            x.eat("("); v = x.eat(); x.eat(")")
+        else:
+            v = x.eat()
+        if v != params[0]:
+            raise Unparsed("delegation on %r" % v)
+        op = x.eat()
+        if not delegates or op not in delegates:
+            raise Unparsed("delegation to operator%s" % op)
+        arg = x.xunary()
+        x.eat(";")
+        x.done()
+        return delegates[op].replace("EScalar", "(%s)" % arg) if arg != "EScalar" else delegates[op]
+    x.eat("for"); x.eat("(")
+    while x.peek() in TYPEWORDS:
+        x.eat()
+    x.eat("&")
+    var = x.eat()
+    x.eat(":")
+    if x.eat() != params[0]:
+        raise Unparsed("range of the loop")
+    x.eat(")")
+    x.env[var] = "EL"
+    braces = x.accept("{")
+
+    def target():
+        if x.eat() != var:
+            raise Unparsed("assignment target")
+        return "EL"
+    e = x.assignment(target)
+    if braces:
+        x.eat("}")
+    x.eat("return")
+    if x.eat() != params[0]:
+        raise Unparsed("return value")
+    x.eat(";")
+    x.done()
+    return e
+
+
+def parse_scalar_round_to(body, params):
+    """T round_to(T val): [constants] (val OP= E; | val = E;)* return E;   composed into one expression"""
+    val = params[0]
+    x = X(tokenize(body), env={val: "EL"})
+    while True:
+        if x.maybe_decl():
+            continue
+        if x.accept("return"):
+            e = x.xexpr()
+            x.eat(";")
+            x.done()
+            return e
+
+        def target():
+            if x.eat() != val:
+                raise Unparsed("assignment target")
+            return x.env[val]
+        x.env[val] = x.assignment(target)
+
+
+PREDS = {"std::isfinite": "PIsFinite", "isfinite": "PIsFinite", "std::isnan": "PIsNan", "isnan": "PIsNan",
+         "vita::issmall": "PIsSmall", "issmall": "PIsSmall", "vita::isnonnegative": "PIsNonneg",
+         "isnonnegative": "PIsNonneg"}
+
+
+def parse_lift(body, params):
+    """return std::all_of|any_of(std::begin(f), std::end(f), PRED);   PRED = static_cast<..>(name) | lambda"""
+    p = P(tokenize(body), [params[0], "_"], "fitness")
+    p.eat("return")
+    alg = p.eat()
+    if alg not in ("std::all_of", "std::any_of", "std::none_of"):
+        raise Unparsed("algorithm %r" % alg)
+    p.eat("(")
+    a = p.iterator("begin"); p.eat(",")
+    b = p.iterator("end"); p.eat(",")
+    if a != "Lhs" or b != "Lhs":
+        raise Unparsed("range")
+    if p.accept("static_cast"):
+        p.skip_template_args()
+        p.eat("(")
+        name = p.eat()
+        p.eat(")")
+        if name not in PREDS:
+            raise Unparsed("predicate %r" % name)
+        pred = PREDS[name]
+    elif p.accept("["):
+        p.eat("]"); p.eat("(")
+        while p.peek() in TYPEWORDS:
+            p.eat()
+        v = p.eat()
+        p.eat(")"); p.eat("{"); p.eat("return")
+        neg = p.accept("!")
+        name = p.eat()
+        if name not in PREDS:
+            raise Unparsed("predicate %r" % name)
+        p.eat("(")
+        if p.eat() != v:
+            raise Unparsed("lambda argument")
+        p.eat(")"); p.eat(";"); p.eat("}")
+        pred = PREDS[name]
+        if neg:
+            pred = "PNot %s" % pred
+    else:
+        name = p.eat()
+        if name not in PREDS:
+            raise Unparsed("predicate %r" % name)
+        pred = PREDS[name]
+    p.eat(")"); p.eat(";")
+    if p.peek() is not None:
+        raise Unparsed("trailing tokens")
+    if alg == "std::none_of":
+        return "QAll", "PNot (%s)" % pred
+    return ("QAll" if alg == "std::all_of" else "QAny"), pred
+
+
+def parse_expects_eq(x, params):
+    """Expects(a.size() == b.size());  -> True when present"""
+    if x.peek() != "Expects":
+        return False
+    x.eat(); x.eat("(")
+    toks = []
+    depth = 1
+    while depth:
+        tk = x.eat()
+        depth += {"(": 1, ")": -1}.get(tk, 0)
+        toks.append(tk)
+    x.eat(";")
+    txt = "".join(toks[:-1])
+    a, b = params[0], params[1]
+    if txt in ("%s.size()==%s.size()" % (a, b), "%s.size()==%s.size()" % (b, a)):
+        return True
+    raise Unparsed("Expects(%s)" % txt)
+
+
+def parse_almost_lift(body, params):
+    """[Expects(sizes equal);] const auto n(f1.size()); for (i < n) if (!almost_equal(f1[i], f2[i], e)) return false;
+       return true;"""
+    x = X(tokenize(body), env={params[2]: "EScalar"} if len(params) > 2 else {},
+          arrays={params[0]: "EL", params[1]: "ER"})
+    eqs = parse_expects_eq(x, params)
+    while x.peek() in TYPEWORDS:
+        x.eat()
+    nname = x.eat()
+    paren = x.accept("(")
+    if not paren:
+        x.eat("=")
+    if x.eat() != params[0]:
+        raise Unparsed("loop bound")
+    x.eat("."); x.eat("size"); x.eat("("); x.eat(")")
+    if paren:
+        x.eat(")")
+    x.eat(";")
+    idx, bound = x.for_header_index()
+    if bound != nname:
+        raise Unparsed("loop bound")
+    x.index = idx
+    braces = x.accept("{")
+    x.eat("if"); x.eat("("); x.eat("!")
+    if x.eat() not in ("almost_equal", "vita::almost_equal"):
+        raise Unparsed("pair test")
+    x.eat("(")
+    a = x.xexpr(); x.eat(",")
+    b = x.xexpr()
+    eps = None
+    if x.accept(","):
+        eps = x.xexpr()
+    x.eat(")"); x.eat(")")
+    x.eat("return"); x.eat("false"); x.eat(";")
+    if braces:
+        x.eat("}")
+    x.eat("return"); x.eat("true"); x.eat(";")
+    x.done()
+    if (a, b) != ("EL", "ER"):
+        raise Unparsed("argument order of the pair test")
+    return eqs, ("CAlmostE (%s)" % eps if eps is not None else "CAlmost")
+
+
+def parse_distance(body, params):
+    """[Expects(sizes equal);] return std::inner_product(a.begin(), a.end(), b.begin(), INIT, std::plus<>(),
+                                                           [](T a, T b) { return E; });"""
+    p = P(tokenize(body), params, "fitness")
+    x = X(p.t)
+    eqs = parse_expects_eq(x, params)
+    p.i = x.i
+    p.eat("return")
+    if p.eat() != "std::inner_product":
+        raise Unparsed("not std::inner_product")
+    p.eat("(")
+    a = p.iterator("begin"); p.eat(",")
+    a2 = p.iterator("end"); p.eat(",")
+    b = p.iterator("begin"); p.eat(",")
+    if (a, a2, b) != ("Lhs", "Lhs", "Rhs"):
+        raise Unparsed("ranges")
+    init = p.eat()
+    if not re.fullmatch(r"\d+\.\d*|\d+", init):
+        raise Unparsed("initial value")
+    p.eat(",")
+    acc = p.eat()
+    accs = {"std::plus": "BAdd", "std::minus": "BSub", "std::multiplies": "BMul"}
+    if acc not in accs:
+        raise Unparsed("accumulation %r" % acc)
+    p.skip_template_args()
+    p.eat("("); p.eat(")"); p.eat(",")
+    p.eat("["); p.eat("]"); p.eat("(")
+    while p.peek() in TYPEWORDS:
+        p.eat()
+    va = p.eat(); p.eat(",")
+    while p.peek() in TYPEWORDS:
+        p.eat()
+    vb = p.eat(); p.eat(")"); p.eat("{"); p.eat("return")
+    x = X(p.t, env={va: "EL", vb: "ER"})
+    x.i = p.i
+    e = x.xexpr()
+    x.eat(";"); x.eat("}"); x.eat(")"); x.eat(";")
+    x.done()
+    return eqs, f64_bits(float(init)), accs[acc], e
+
+
+def parse_combine(body, params):
+    """values_t ret; [ret.reserve(..);] ret.insert(std::end(ret), std::begin(x), std::end(x)); ...  return ret;"""
+    t = tokenize(body)
+    p = P(t, params, "fitness")
+    # declaration: everything up to the first ';' ends with the name of the result
+    j = t.index(";")
+    ret = t[j - 1]
+    p.i = j + 1
+    order = []
+    while True:
+        if p.accept("return"):
+            if p.eat() != ret:
+                raise Unparsed("return value")
+            p.eat(";")
+            break
+        if p.eat() != ret:
+            raise Unparsed("statement on something else than the result")
+        p.eat(".")
+        m = p.eat()
+        if m == "reserve":
+            p.eat("(")
+            depth = 1
+            while depth:
+                depth += {"(": 1, ")": -1}.get(p.eat(), 0)
+            p.eat(";")
+            continue
+        if m != "insert":
+            raise Unparsed("member %r" % m)
+        p.eat("(")
+        # position: std::end(ret) / ret.end()
+        if p.accept("std::end"):
+            p.eat("(")
+            if p.eat() != ret:
+                raise Unparsed("insert position")
+            p.eat(")")
+        else:
+            if p.eat() != ret:
+                raise Unparsed("insert position")
+            p.eat("."); p.eat("end"); p.eat("("); p.eat(")")
+        p.eat(",")
+        a = p.iterator("begin"); p.eat(",")
+        b = p.iterator("end")
+        if a != b:
+            raise Unparsed("mixed ranges")
+        p.eat(")"); p.eat(";")
+        order.append(a)
+    if p.peek() is not None:
+        raise Unparsed("trailing tokens")
+    return order
+
+
+def generate_arith(tcc, util):
+    """-> (dict name -> Coq term text, problems)"""
+    out, problems = {}, []
+    BF = r"basic_fitness_t<T>"
+
+    def attempt(name, fn):
+        try:
+            out[name] = fn()
+        except Unparsed as e:
+            problems.append("%s: %s" % (name, e))
+        except (ValueError, IndexError) as e:
+            problems.append("%s: %s" % (name, e))
+
+    compound = {}
+    for op in ("+", "-", "*"):
+        def f(op=op):
+            params, _, body = find_function2(tcc, BF + r"\s*&\s*" + BF + r"::operator\s*" + re.escape(op) + r"=\s*(?=\()")
+            return parse_compound(body, params)
+        try:
+            compound[op] = f()
+        except Unparsed as e:
+            problems.append("operator%s=: %s" % (op, e))
+    for op, name in (("+", "plus_def"), ("-", "minus_def"), ("*", "times_def")):
+        def f(op=op):
+            params, _, body = find_function2(tcc, BF + r"\s+operator\s*" + re.escape(op) + r"\s*(?=\()",
+                                             lambda ptxt: ptxt.count("basic_fitness_t") == 2)
+            target = parse_binary_free(body, params)
+            if target not in compound:
+                raise Unparsed("delegates to operator%s= which was not parsed" % target)
+            return "VIndexLoop (%s)" % compound[target]
+        attempt(name, f)
+    scalar_ops = {}
+
+    def scalar_filter(ptxt):
+        return ptxt.count("basic_fitness_t") == 1 and re.search(r"\bT\s+\w+\s*$", ptxt) is not None
+    # operator*(f, v) first, then operator/(f, v) (either may delegate to the other)
+    for rnd in (0, 1):
+        for op in ("*", "/"):
+            if op in scalar_ops:
+                continue
+            try:
+                params, _, body = find_function2(tcc, BF + r"\s+operator\s*" + re.escape(op) + r"\s*(?=\()", scalar_filter)
+                scalar_ops[op] = parse_range_for(body, params, scalar=params[1], delegates=scalar_ops)
+            except Unparsed as e:
+                if rnd == 1:
+                    problems.append("operator%s(f, v): %s" % (op, e))
+    if "/" in scalar_ops:
+        out["div_scalar_def"] = "VRangeFor (%s)" % scalar_ops["/"]
+    if "*" in scalar_ops:
+        out["mul_scalar_def"] = "VRangeFor (%s)" % scalar_ops["*"]
+    for fn, name in (("abs", "abs_def"), ("sqrt", "sqrt_def"), ("round_to", "round_to_def")):
+        def f(fn=fn):
+            params, _, body = find_function2(tcc, BF + r"\s+" + fn + r"\s*(?=\()")
+            return "VRangeFor (%s)" % parse_range_for(body, params)
+        attempt(name, f)
+    for fn, name in (("isfinite", "isfinite_def"), ("isnan", "isnan_def"), ("issmall", "issmall_def"),
+                     ("isnonnegative", "isnonnegative_def")):
+        def f(fn=fn):
+            params, _, body = find_function2(tcc, r"bool\s+" + fn + r"\s*(?=\()")
+            q, pred = parse_lift(body, params)
+            return "{| l_quant := %s; l_pred := %s |}" % (q, pred)
+        attempt(name, f)
+
+    def f_ae():
+        params, _, body = find_function2(tcc, r"bool\s+almost_equal\s*(?=\()")
+        eqs, t = parse_almost_lift(body, params)
+        return "{| pl_eq_sizes := %s; pl_test := %s |}" % ("true" if eqs else "false", t)
+    attempt("almost_equal_def", f_ae)
+
+    def f_dist():
+        params, _, body = find_function2(tcc, r"double\s+distance\s*(?=\()")
+        eqs, init, acc, e = parse_distance(body, params)
+        return "VInner %s %d %s (%s)" % ("true" if eqs else "false", init, acc, e)
+    attempt("distance_def", f_dist)
+
+    def f_comb():
+        params, _, body = find_function2(tcc, BF + r"\s+combine\s*(?=\()")
+        return "VConcat [%s]" % "; ".join(parse_combine(body, params))
+    attempt("combine_def", f_comb)
+
+    def f_rt():
+        params, _, body = find_function2(util, r"\bT\s+round_to\s*(?=\()")
+        return parse_scalar_round_to(body, params)
+    attempt("round_to_scalar_def", f_rt)
+    return out, problems
+
+
+ARITH_TYPES = {"plus_def": "vop", "minus_def": "vop", "times_def": "vop", "div_scalar_def": "vop",
+               "mul_scalar_def": "vop", "abs_def": "vop", "sqrt_def": "vop", "round_to_def": "vop",
+               "distance_def": "vop", "combine_def": "vop", "isfinite_def": "lift_def", "isnan_def": "lift_def",
+               "issmall_def": "lift_def", "isnonnegative_def": "lift_def", "almost_equal_def": "pair_lift",
+               "round_to_scalar_def": "eexpr"}
 
 
 if __name__ == "__main__":
